@@ -31,3 +31,10 @@ pub assume_specification<T, A: core::alloc::Allocator, F: FnMut(&T) -> bool> [Ve
 // <[T]>::contains(x): some element equals x (for types whose `==` is spec equality)
 pub assume_specification<T: PartialEq> [<[T]>::contains] (s: &[T], x: &T) -> (r: bool)
     ensures T::obeys_eq_spec() ==> r == s@.contains(*x);
+
+// R11 idiom stub: `for x in [a, b]` (array by value; core::array::IntoIter has no vstd spec) yields a, then b.
+#[verifier::external_body]
+pub fn idiom_array2<T>(a: T, b: T) -> (r: Vec<T>) ensures r@ == seq![a, b] { unimplemented!() }
+
+pub assume_specification<T, A: core::alloc::Allocator> [VecDeque::<T, A>::is_empty] (v: &VecDeque<T, A>) -> (r: bool)
+    ensures r == (v@.len() == 0);
